@@ -238,6 +238,7 @@ static IsoResult exec_isolated(const Plan& plan, Replicas& reps, const std::stri
 
 // ---------------------------------------------------------------- shrinking (one violation class per shrink)
 static bool same_class(const RunResult& r, const Violation& v) { return r.violated && r.v.prop == v.prop && r.v.oracle == v.oracle; }
+// (debug aid) JV_REPORT_ALL=1 makes a check report violations of every property its batches come across
 
 static Plan shrink(const Plan& start, Replicas& reps, const std::string& mode, const UnitPick& p, const std::string& focus, const Violation& v, int budget, int& used) {
     Plan best = start; used = 0;
@@ -437,7 +438,7 @@ int run_check(const std::string& prop, const std::string& tier, uint64_t seed, i
                             merge(st, r);
                             unit_fps.push_back(strf("%zu/%llu/%s", u.b, (unsigned long long) u.idx, r.fingerprint.c_str()));
                             if (r.violated) {
-                                if (r.v.prop == prop || r.v.prop == "HARNESS") viols.push_back({u, r});
+                                if (r.v.prop == prop || r.v.prop == "HARNESS" || getenv("JV_REPORT_ALL")) viols.push_back({u, r});
                                 else st.counters["other_property_violation:" + r.v.prop + ":" + r.v.oracle]++;
                             }
                             if (sample_budget && u.idx < 2) { sample_budget--; Plan pl = plan_for(spec.batches[u.b], u.b, seed, u.idx); auto sj = Json::obj(); sj->set("scenario", pl.scenario); sj->seti("run_index", (int64_t) u.idx); sj->set("fingerprint", r.fingerprint); auto oa = Json::arr(); for (size_t q = 0; q < pl.ops.size() && q < 14; q++) oa->push(Json::str(pl.ops[q].str().substr(0, 300))); sj->set("ops", oa); sj->seti("ops_total", (int64_t) pl.ops.size()); st.samples.push_back(sj); }
